@@ -7,7 +7,7 @@ U64 = 2 ** 64 - 1
 
 def hx(b):
     if isinstance(b, str):
-        b = b.encode()
+        b = b.encode("utf-8", "surrogateescape")
     return "x" + b.hex()
 
 
@@ -88,14 +88,16 @@ def render(chains, eol="\n", final_newline=True, blank_between=1, blank_before=0
     text = eol.join(lines)
     if final_newline and lines:
         text += eol
-    return text.encode()
+    # lines may carry arbitrary bytes as surrogate escapes (invalid UTF-8 for the reader)
+    return text.encode("utf-8", "surrogateescape")
 
 
 def render_lines(lines, eol="\n", final_newline=True):
     text = eol.join(lines)
     if final_newline and lines:
         text += eol
-    return text.encode()
+    # lines may carry arbitrary bytes as surrogate escapes (invalid UTF-8 for the reader)
+    return text.encode("utf-8", "surrogateescape")
 
 
 # ------------------------------------------------------------------------------------------
